@@ -126,13 +126,19 @@ def endOut : ErrKind → Out α
   | .observationCancelled => .stop
   | .transport k => .raise k
 
+/-- the fresh future `__anext__` puts into the slot: completed at once with the error that was
+kept aside, if there is one (`protocol.py:1243-1247`) -/
+def freshFut : Option ErrKind → Fut α
+  | some e => .exc e
+  | none => .pending
+
 /-- what `__anext__` does once `await self._future` on future `f` returns or raises
 (`protocol.py:1236-1254`); the consumer is out of `__anext__` afterwards -/
 def finish (s : St α) (f : Nat) : St α × List (Out α) :=
   match s.get f with
   | .result m =>
     (if f = s.slot then
-      { futs := s.futs ++ [match s.deferred with | some e => .exc e | none => .pending],
+      { futs := s.futs ++ [freshFut s.deferred],
         slot := s.futs.length, deferred := none, cons := .idle }
      else { s with cons := .idle }, [.item m])
   | .exc e => ({ s with cons := .idle }, [endOut e])
